@@ -217,6 +217,7 @@ fn main() {
             let mut nontrivial = HashSet::new();
             let mut known_seen: std::collections::BTreeMap<&'static str, usize> = Default::default();
             let corpus = sim::corpus(&prop);
+            let (mut dist_kinds, mut dist_mach, mut dist_flags, mut dist_len) = ([0usize; 10], [0usize; 5], [0usize; 6], [0usize; 4]);
             for i in 0..n {
                 let mut r = master.fork();
                 if let Some(o) = only {
@@ -227,6 +228,20 @@ fn main() {
                 let c = if i < corpus.len() { corpus[i].clone() } else { sim::gen_sim_case(&prop, &mut r) };
                 let run = sim::run_sim(&c);
                 let toks = sim::enc_sim_case(&c, &run);
+                dist_mach[(c.mc.len() + c.ms.len()).min(4)] += 1;
+                let is_role = |m: &maybenot::Machine| m.states.len() == 2 && m.allowed_padding_packets == u64::MAX;
+                dist_flags[0] += (c.mc.iter().any(is_role) || c.ms.iter().any(is_role)) as usize;
+                dist_flags[1] += c.via_parse as usize;
+                dist_flags[2] += c.cont as usize;
+                dist_flags[3] += c.pps.is_some() as usize;
+                dist_flags[4] += (c.only_client || c.only_network) as usize;
+                dist_flags[5] += (c.max_trace > 0) as usize;
+                dist_len[if c.trace.len() <= 1 { 0 } else if c.trace.len() <= 5 { 1 } else if c.trace.len() <= 20 { 2 } else { 3 }] += 1;
+                if let Ok(tr) = &run.out {
+                    for e in tr {
+                        dist_kinds[e.kind as usize] += 1;
+                    }
+                }
                 writeln!(cases, "{}", enc::hex_line(None, &toks)).unwrap();
                 for l in sim::out_lines(&run) {
                     writeln!(implo, "{}", enc::hex_line(Some(i), &l)).unwrap();
@@ -265,7 +280,13 @@ fn main() {
                         (c.mc.iter().map(|m| m.serialize()).collect::<Vec<_>>(), c.ms.iter().map(|m| m.serialize()).collect::<Vec<_>>(), c.fr, c.delay_ns, c.pps, c.via_parse, c.max_trace, c.max_iter, c.cont, c.only_client, c.only_network, c.seed), c.trace).unwrap();
                 }
             }
-            writeln!(meta, "summary cases={} nontrivial={} violations={} panics={} events={} known={:?}", n, nontrivial.len(), viol, panics, events, known_seen).unwrap();
+            let known_s: Vec<String> = known_seen.iter().map(|(k, v)| format!("{}:{}", k, v)).collect();
+            writeln!(
+                meta,
+                "summary cases={} nontrivial={} violations={} panics={} events={} known=[{}] event_kinds_recvN_recvP_recvT_sentN_sentP_sentT_bbegin_bend_tbegin_tend={:?} cases_by_machines_0_1_2_3_4plus={:?} role_machine_cases={} parsed_queue={} continue_after_normal={} pps_limit={} filtered_output={} bounded_trace={} trace_len_1_5_20_40={:?}",
+                n, nontrivial.len(), viol, panics, events, known_s.join(","), dist_kinds, dist_mach, dist_flags[0], dist_flags[1], dist_flags[2], dist_flags[3], dist_flags[4], dist_flags[5], dist_len
+            )
+            .unwrap();
         }
         Some("c12") => {
             let a = &args[2..];
